@@ -1,4 +1,6 @@
 -- Root of the `SpaModel` library: `lake build` (MANIFEST.setup_cmd) builds every property's theorems.
 import SpaModel.Proto
+import SpaModel.AlgProto
 import SpaModel.Generated.Tables
+import SpaModel.Props.C02
 import SpaModel.Props.C11
